@@ -35,14 +35,10 @@ Definition from_h5 (c : cls) (name : string) (g : obj) : res rnode :=
        | CArray => match get (olinks g) "data" with
                    | Some (D a s t) =>
                        if has a "units" then
-                         let r := length s in
-                         match r with
-                         | 0 => Err EOther
-                         | S r' =>
-                           if forallb (fun i => match get (olinks g) ("dim" +++ nat_str i) with
-                                                | Some (D da _ _) => has da "name" && has da "units" | _ => false end) (seq 0 r)
-                           then Ok (t, r) else Err ENotFound
-                         end
+                         let r := length s in        (* 0-d data: no dim datasets are looked at *)
+                         if forallb (fun i => match get (olinks g) ("dim" +++ nat_str i) with
+                                              | Some (D da _ _) => has da "name" && has da "units" | _ => false end) (seq 0 r)
+                         then Ok (t, r) else Err ENotFound
                        else Err ENotFound
                    | _ => Err ENotFound end
        | CPl => match filter (fun kv => negb (is_group (snd kv))) (ksort (olinks g)) with
